@@ -19,6 +19,7 @@ is compared, and only differences that change what the matched expression comput
   D11 the same conditions joined by the other connective (and <-> or)
   D12 `t = A if c else B` became unconditionally `t = A` and `c` is tested nowhere in the function any more
   D5b a subscript made only of literals changed                                              x[..., None] -> x[:, None]
+  D13 the default value of a parameter changed (a module constant with the old text counts as the same)
   D7  one positional argument that is a parameter of the enclosing function is no longer passed, the other
       arguments unchanged and in order                                                    merge(state, *states) -> merge(*states)
 
@@ -44,7 +45,7 @@ _NONCOMM = (ast.Sub, ast.Div, ast.FloorDiv, ast.Mod, ast.Pow, ast.MatMult, ast.L
 
 def _own_nodes(fn):
   """Nodes of fn's body, not descending into nested function definitions (they are functions of their own) but into lambdas."""
-  stack = list(fn.body)
+  stack = [x for x in fn.body if not isinstance(x, (ast.FunctionDef, ast.AsyncFunctionDef, ast.ClassDef))]
   while stack:
     n = stack.pop()
     yield n
@@ -178,7 +179,13 @@ def atoms(fn):
     if isinstance(n, ast.Compare) and len(n.ops) == 1 and isinstance(n.ops[0], (ast.Is, ast.IsNot, ast.Eq, ast.NotEq)) and isinstance(n.comparators[0], ast.Constant) and n.comparators[0].value in (None, False) \
         and not isinstance(n.comparators[0].value, int if n.comparators[0].value is None else str) and astu.dotted(n.left):
       nonecmp.setdefault(astu.dotted(n.left), []).append(repr(n.comparators[0].value))
-  return {'call': uniq(calls), 'cmp': uniq(cmps), 'idx': uniq(idxs), 'bin': uniq(bins), 'params': sorted(params),
+  defaults = {}
+  if getattr(fn, 'args', None) is not None:
+    a_ = fn.args
+    pos_ = a_.posonlyargs + a_.args
+    for x_, d_ in list(zip(pos_[len(pos_) - len(a_.defaults):], a_.defaults)) + [(x_, d_) for x_, d_ in zip(a_.kwonlyargs, a_.kw_defaults) if d_ is not None]:
+      defaults[x_.arg] = astu.src(d_)
+  return {'defaults': defaults, 'call': uniq(calls), 'cmp': uniq(cmps), 'idx': uniq(idxs), 'bin': uniq(bins), 'params': sorted(params),
           'fx': {k: v[0] for k, v in effects.items() if len(v) == 1}, 'callees': sorted(all_callees), 'truthy': sorted(truthy), 'nonecmp': {k: sorted(set(v)) for k, v in nonecmp.items()},
           'bool': uniq(bools), 'ifexp': uniq(ifexps), 'lslice': uniq(lslices), 'plain': {k: v for k, v in plain.items() if len(v) == 1}, 'tests': tests}
 
@@ -203,7 +210,7 @@ def table(repo, rels):
     out['#calls|' + rel] = call_counts(m._tree)
     for q, f in m._funcs.items():
       a = atoms(f.node)
-      if a['call'] or a['cmp'] or a['idx'] or a['bin'] or a['fx'] or a['nonecmp'] or a['bool'] or a['ifexp'] or a['lslice']:
+      if a['call'] or a['cmp'] or a['idx'] or a['bin'] or a['fx'] or a['nonecmp'] or a['bool'] or a['ifexp'] or a['lslice'] or a['defaults']:
         out['%s|%s' % (rel, q)] = a
   return out
 
@@ -212,7 +219,7 @@ def _tail(callee):
   return callee.split('.')[-1].split('(')[0]
 
 
-def compare(R, f, ref, now, module_funcs=None, counts=None, repo=None):
+def compare(R, f, ref, now, module_funcs=None, counts=None, repo=None, module_consts=None):
   """Report D1-D6 differences between the reference atoms and the current atoms of one function."""
   n_cmp = 0
   q = f.qual
@@ -289,6 +296,17 @@ def compare(R, f, ref, now, module_funcs=None, counts=None, repo=None):
       continue
     n_cmp += 1
     R.fail(key_of(f, '`%s` compared with %s' % (x, '/'.join(consts))), f, '`%s` is compared with %s on the reference tree; now it is only tested by truthiness, which also treats 0, 0.0, empty containers and empty filters as "absent" / "off"' % (x, ' / '.join(consts)))
+  # D13: the default of a parameter changed (a named module constant with the old text counts as unchanged)
+  for p_, rd in (ref.get('defaults') or {}).items():
+    nd = (now.get('defaults') or {}).get(p_)
+    if nd is None or nd == rd:
+      continue
+    n_cmp += 1
+    resolved = nd
+    if module_consts is not None and nd in module_consts:
+      resolved = module_consts[nd]
+    if resolved != rd and not (rd in (module_consts or {}) and module_consts[rd] == nd):
+      R.fail(key_of(f, 'default of `%s`' % p_), f, 'the default of parameter `%s` of %s is `%s`; on the reference tree it is `%s`: every caller that relies on the default now gets other behaviour' % (p_, q, nd, rd))
   # D11: the same operands joined by the other connective (a refactoring that swaps and/or also negates the operands)
   for key, (rop, _l) in (ref.get('bool') or {}).items():
     cur = (now.get('bool') or {}).get(key)
@@ -345,13 +363,14 @@ def run(R, repo, rels):
     R.require(rel in repo._paths, 'anchor file %s is missing' % rel)
     m = repo.mod(rel)
     now_counts = call_counts(m.tree)
+    consts = {k_: astu.src(v_) for k_, v_ in m.assigns.items() if isinstance(v_, ast.AST) and len(astu.src(v_)) < 200}
     nf = nc = 0
     for q, f in sorted(m.funcs.items()):
       ref = tab.get('%s|%s' % (rel, q))
       if not ref:
         continue
       nf += 1
-      nc += compare(R, f, ref, atoms(f.node), module_funcs={qq.split('.')[-1] for qq in m.funcs}, counts=(tab.get('#calls|' + rel) or {}, now_counts), repo=repo)
+      nc += compare(R, f, ref, atoms(f.node), module_funcs={qq.split('.')[-1] for qq in m.funcs}, counts=(tab.get('#calls|' + rel) or {}, now_counts), repo=repo, module_consts=consts)
       sref = stab.get('%s|%s' % (rel, q))
       if sref:
         nc += compare_statements(R, f, sref, statements(f.node))
@@ -368,7 +387,7 @@ def ensure(prop, registry, RuleSpec):
 
   def fn(R, repo, _prop=prop):
     run(R, repo, generic.rule_files(_prop))
-  specs.append(RuleSpec(rid, 'K4', len(rels), 'expressions matched with the reference tree: argument order, boolean flags, forwarded keywords, relations, constant indices, operand order', fn))
+  specs.append(RuleSpec(rid, 'K4', len(rels), 'expressions matched with the reference tree: argument order, flags, forwarded / dropped arguments, relations and connectives, indices, operand order, one-leaf replacements, dropped effect calls, None-tests turned into truthiness, collapsed conditionals', fn))
 
 
 # ----------------------------------------------------------------------------------------------
@@ -409,6 +428,8 @@ def _skel(n, leaves, strip=None):
       leaves.append("'%s'" % n.value if _IDENT_RE.match(n.value) else '"str"')
     else:
       leaves.append(repr(n.value))
+      if n.value is True or n.value is False or n.value is None:
+        return '_'  # same shape as a name: `f(x, flag)` vs `f(x, True)` differ in one leaf only
     return 'c'
   if isinstance(n, ast.JoinedStr):
     leaves.append('"fstr"')
@@ -511,13 +532,14 @@ def compare_statements(R, f, ref, now):
       if h2 != h or len(nl) != len(rl) or (h2, tuple(nl)) in ref_exact:
         continue
       diff = [i for i in range(len(rl)) if rl[i] != nl[i]]
-      if len(diff) == 1:
+      if len(diff) == 1 and not rl[diff[0]].startswith('=') and not nl[diff[0]].startswith('='):
         cands.append((diff[0], nl, line))
     # the reference statement must have exactly one near match, and that near match exactly one reference counterpart
     if len(cands) != 1:
       continue
     i, nl, line = cands[0]
-    others = [1 for h3, rl3, _ in ref['stmts'] if h3 == h and len(rl3) == len(nl) and (h3, tuple(rl3)) not in now_exact and sum(1 for j in range(len(nl)) if rl3[j] != nl[j]) == 1]
+    others = [1 for h3, rl3, _ in ref['stmts'] if h3 == h and len(rl3) == len(nl) and (h3, tuple(rl3)) not in now_exact and sum(1 for j in range(len(nl)) if rl3[j] != nl[j]) == 1
+              and not any(rl3[j] != nl[j] and (rl3[j].startswith('=') or nl[j].startswith('=')) for j in range(len(nl)))]
     if len(others) != 1:
       continue
     old, new = rl[i], nl[i]
@@ -526,7 +548,10 @@ def compare_statements(R, f, ref, now):
     n += 1
     if _is_ident(old) and _is_ident(new) and _aliases(f, old, new):
       continue  # `new` is a local holding the value of `old` (t = old ... use t): the same value flows here
-    if _is_ident(old) and _is_ident(new):
+    if _is_ident(old) and new in ('True', 'False', 'None') and old not in ('True', 'False', 'None'):
+      if old in nv:
+        R.fail(key_of(f, 'value used at `%s`' % ' '.join(x for x in rl[:6])), (f, line), 'line %d passes the constant `%s` where the reference tree uses `%s` (which still exists in %s) in an otherwise identical statement' % (line, new, old, f.qual))
+    elif _is_ident(old) and _is_ident(new):
       # a rename changes every occurrence: the old name then no longer occurs in the function.  Here both names exist on both trees.
       if new in rv and old in nv and new.split('.')[0] not in ('self',) + () or (new in rv and old in nv):
         if new in rv and old in nv:
@@ -534,6 +559,8 @@ def compare_statements(R, f, ref, now):
                  'line %d uses `%s` where the reference tree uses `%s` in an otherwise identical statement (both names exist in %s on both trees, so this is not a rename): a different value flows here' % (line, new, old, f.qual))
     elif old.startswith("'") and new.startswith("'"):
       R.fail(key_of(f, 'name at `%s`' % ' '.join(x for x in rl[:6])), (f, line), 'line %d uses the name %s where the reference tree uses %s in an otherwise identical statement: another collection / stream / field / key is addressed' % (line, new, old))
+    elif _is_ident(old) and new in ('True', 'False', 'None') and old in nv:
+      R.fail(key_of(f, 'value used at `%s`' % ' '.join(x for x in rl[:6])), (f, line), 'line %d passes the constant `%s` where the reference tree uses `%s` (which still exists in %s) in an otherwise identical statement' % (line, new, old, f.qual))
     elif {old, new} == {'True', 'False'}:
       R.fail(key_of(f, 'constant at `%s`' % ' '.join(x for x in rl[:6])), (f, line), 'line %d has `%s` where the reference tree has `%s` in an otherwise identical statement' % (line, new, old))
   return n
